@@ -26,6 +26,10 @@ CONSTANTS
     DryRunPublishes,    \* TRUE: a preview publishes an event
     RevertEventSwapped, \* TRUE: the revert event names the two transactions the wrong way round
     MetaSourceLocked,   \* TRUE: a source account obtained through meta() is write-locked
+    AckWaitsPersist,    \* TRUE: run() blocks until the Terminated callback of its log has run
+    IkSpan,             \* "run": the idempotency key is reserved until run() returns (covers the wait)
+                        \* "exec": it is dropped when the executor returns
+    RevertGuard,        \* TRUE: RevertTransaction reserves the target id while it runs
     MaxCrash            \* number of crash/restart cycles explored
 
 VARIABLES
@@ -244,8 +248,8 @@ S_ReadRun(p) ==
 
 \* exec(): nextTXID()
 S_AllocTx(p) ==
-    /\ SeqAtomic => seqOwner = "none"
-    /\ seqOwner' = IF SeqAtomic THEN p ELSE seqOwner
+    /\ (SeqAtomic /\ ~req[p].dry) => seqOwner = "none"
+    /\ seqOwner' = IF SeqAtomic /\ ~req[p].dry THEN p ELSE seqOwner
     /\ IF req[p].dry /\ ~DryRunAllocates
        THEN lastTx' = lastTx
        ELSE lastTx' = lastTx + 1
@@ -284,17 +288,15 @@ S_Append(p) ==
 
 \* the executor returns: its deferred releases run
 S_ExecReturn(p) ==
-    LET k == {x \in loc[p].keys : x[1] = "ref"} IN
-    /\ IF RefRelease = "execReturn"
-       THEN refs' = refs \ k /\ loc' = [loc EXCEPT ![p].keys = @ \ k]
-       ELSE refs' = refs /\ loc' = loc
+    LET k == {x \in loc[p].keys : (x[1] = "ref" /\ RefRelease = "execReturn") \/ (x[1] = "ik" /\ IkSpan = "exec")} IN
+    /\ refs' = refs \ k /\ loc' = [loc EXCEPT ![p].keys = @ \ k]
     /\ seqOwner' = IF seqOwner = p THEN "none" ELSE seqOwner
     /\ Goto(p, "waitdone")
     /\ UNCHANGED <<store, lastLog, lastTx, rl, wl, lq, pending, inflight, doneSet, resp, events>>
 
 \* <-done : enabled once the Terminated callback of the log has run
 S_WaitDone(p) ==
-    /\ req[p].dry \/ loc[p].log.id \in doneSet
+    /\ req[p].dry \/ loc[p].log.id \in doneSet \/ ~AckWaitsPersist
     /\ Goto(p, "done")
     /\ UNCHANGED <<loc, store, lastLog, lastTx, refs, rl, wl, lq, seqOwner, pending, inflight, doneSet, resp, events>>
 
@@ -332,11 +334,11 @@ S_Publish(p) ==
 \* RevertTransaction(): in-flight guard, then read the target
 S_RevTake(p) ==
     LET k == <<"rev", req[p].target>> IN
-    IF k \in refs
+    IF RevertGuard /\ k \in refs
     THEN /\ Fail(p, "revert-occurring")
          /\ UNCHANGED <<store, lastLog, lastTx, pending, inflight, doneSet, events>>
-    ELSE /\ refs' = refs \cup {k}
-         /\ loc' = [loc EXCEPT ![p].keys = @ \cup {k}]
+    ELSE /\ refs' = IF RevertGuard THEN refs \cup {k} ELSE refs
+         /\ loc' = IF RevertGuard THEN [loc EXCEPT ![p].keys = @ \cup {k}] ELSE loc
          /\ Goto(p, "rev.taken")
          /\ UNCHANGED <<store, lastLog, lastTx, rl, wl, lq, seqOwner, pending, inflight, doneSet, resp, events>>
 
@@ -441,6 +443,7 @@ C07_IkOnce          == IkOnce(store) /\ IkSameOutcome(resp)
 C10_RevertOnce      == RevertOnce(store) /\ RevertIsInverse(store)
 C11_RefOnce         == RefOnce(store)
 C14_DryRun          == DryLeavesNoEntry(store, DryProcs) /\ DryPublishesNothing(events, DryProcs)
+C14_NoIdConsumed    == TxIdsSequential(store)
 C16_EventsFaithful  == EventsFaithful(events, store)
 C16_AllPublished    == (Quiet /\ crashes = 0) => AllPublished(events, store, resp)
 
